@@ -150,6 +150,13 @@ fn map_spec(sl: &[Sl], a: usize, b: usize) -> Option<(usize, usize)> {
     Some((start, end))
 }
 
+/// `--legacy`: the harness is built against a tree with fix 7ed96a0 reverted; only the lex tie is
+/// emitted, into group `lexlegacy` (checked against `iter_segments_legacy`), nothing is judged.
+static LEGACY: std::sync::atomic::AtomicBool = std::sync::atomic::AtomicBool::new(false);
+fn legacy() -> bool {
+    LEGACY.load(std::sync::atomic::Ordering::Relaxed)
+}
+
 // ------------------------------------------------------------------ per-thread state
 #[derive(Default)]
 struct St {}
@@ -275,6 +282,13 @@ fn lex_part(st: &mut St, group: &str, cls: &str, dialect: &str, tf: &TemplatedFi
     }
     let sample = json!({"input":input,"slices":sl,"elements":els,
         "real": match &real { Ok(s) => json!(s.iter().map(|g| json!([g.0,g.1,g.2,g.3])).collect::<Vec<_>>()), Err(m) => json!({"panic":trunc(m,200)}) }});
+    if legacy() {
+        out.case("lexlegacy", cls, straddles > 0, args, exp, sample);
+        if real.is_err() {
+            out.count("legacy_panics", 1);
+        }
+        return;
+    }
     out.case(group, cls, straddles > 0, args, exp, sample);
 
     // ---- direct observation of the property on the implementation
@@ -473,7 +487,9 @@ fn run_placeholder(st: &mut St, cls: &str, dialect: &str, style: &str, regex: &O
     let sample = json!({"input":item_json,"caps":caps,
         "result": match &r { Ok(Ok(tf)) => json!({"templated":tf.templated(),"slices":slices_of(tf)}), Ok(Err(e)) => json!({"err":e.value}), Err(m) => json!({"panic":trunc(m,200)}) }});
     let changing = matches!(&r, Ok(Ok(tf)) if tf.templated() != src);
-    out.case("process", cls, changing, args, exp, sample);
+    if !legacy() {
+        out.case("process", cls, changing, args, exp, sample);
+    }
     if caps.is_empty() {
         out.count("files_without_placeholder", 1);
     }
@@ -858,6 +874,9 @@ fn ph(style: &str, src: &str, vals: &[(&str, Val)]) -> Item {
 
 pub fn main(args: &Args) {
     silence_panics();
+    if args.extra.iter().any(|a| a == "--legacy") {
+        LEGACY.store(true, std::sync::atomic::Ordering::Relaxed);
+    }
     let mut out = Out::new(&args.out);
     let mut rng = Rng::new(args.seed);
     let mut items: Vec<(Item, u64)> = vec![];
